@@ -29,6 +29,36 @@ def parse_line(l):
     return int(parts[0]), parts[1], d
 
 
+# coverage audit: re-opens of stores the library itself has just written (and nobody touched since) that FAIL are counted per format; a check
+# that silently skips such files has a hole (this is how the header-less block codecs once escaped the C05 / C06 oracles)
+REOPEN_FAILURES = {}
+
+
+def audit_reopens(script_text, lines):
+    import formats
+    wrote = {}
+    for ln, raw in enumerate(script_text.split("\n"), 1):
+        t = raw.split()
+        if len(t) < 3:
+            continue
+        if t[0] == "store" and t[2] in ("hex", "append", "poke", "trunc", "copy", "clear", "reload"):
+            wrote.pop(t[1], None)
+        elif t[0] == "fault":
+            wrote.pop(t[1], None)
+        elif t[0] == "open" and len(t) > 4 and ln in lines:
+            d = lines[ln][1]
+            sid = t[2]
+            if t[3] == "w":
+                wrote.pop(sid, None)
+                if d.get("ok") == "1":
+                    try:
+                        wrote[sid] = formats.name(int(t[4], 16))
+                    except Exception:
+                        wrote[sid] = t[4]
+            elif t[3] == "r" and sid in wrote and d.get("ok") != "1":
+                REOPEN_FAILURES[wrote[sid]] = REOPEN_FAILURES.get(wrote[sid], 0) + 1
+
+
 def run_harness(script_text, tag, timeout=600, env=None):
     tmpd = os.path.join(vlib.BUILD, "tmp")
     os.makedirs(tmpd, exist_ok=True)
@@ -41,6 +71,10 @@ def run_harness(script_text, tag, timeout=600, env=None):
         p = parse_line(l)
         if p:
             lines[p[0]] = (p[1], p[2], l)
+    try:
+        audit_reopens(script_text, lines)
+    except Exception:
+        pass
     return rc, lines, err
 
 
